@@ -166,7 +166,8 @@ def r_chain(E):
             # popping the key before inserting moves it to the end — the position of the LAST occurrence; without the pop
             # the key stays where it was first inserted
             from ..astutil import nodes_through_helpers as _nth_c
-            nodes_c = list(_nth_c(fn, None, depth=2, find_function=pm.function_finder(rel)))
+            _ff_here, _ff_pkg = pm.function_finder(rel), pm.package_function_finder()
+            nodes_c = list(_nth_c(fn, None, depth=2, find_function=lambda nm_: _ff_here(nm_) or _ff_pkg(nm_)))
 
             def const_truth(t):
                 if isinstance(t, ast.Compare) and len(t.ops) == 1 and isinstance(t.left, ast.Constant) \
